@@ -49,33 +49,23 @@ fn sym(name: &str) -> usize {
 }
 
 /// Which flag sets `setup_io_uring` accepts here and completes a small batch under.  Runs in forked children.
-pub fn probe_flags(out: &str, cal: &Calib) -> Vec<(u32, String)> {
+pub fn probe_flags(out: &str) -> Vec<(u32, String)> {
     let mut items = Vec::new();
     for bits in flag_candidates() {
-        let cal = cal.clone();
         items.push(isolated(format!("probe-{}", flags_name(bits)), move || {
             let mut rep = Report::new();
             install_watchdog();
             let sh = Shard::new(&format!("probe{bits}"));
             let status = match sh.make_ring(4, bits) {
                 Err(e) => format!("refused: {e}"),
-                Ok(mut rs) => {
+                Ok(rs) => {
                     if let Some(why) = not_applicable(bits) {
                         format!("accepted-unusable: {why}")
                     } else {
-                        let mut sh2 = Shard::new(&format!("probe{bits}b"));
-                        sh2.watchdog_s = 10;
-                        let mut tmp = Report::new();
-                        let c1 = Case { entries: 4, flags: bits, linked: false, batch: vec![sym("readv:full"), sym("statx:existing"), sym("openat:existing")], rounds: 2, links: None };
-                        let c2 = Case { entries: 4, flags: bits, linked: true, batch: vec![sym("mkdirat:new"), sym("timeout:1ms"), sym("close:valid")], rounds: 2, links: None };
-                        run_case(&mut sh2, &mut rs, &c1, &cal, &mut tmp, false);
-                        run_case(&mut sh2, &mut rs, &c2, &cal, &mut tmp, false);
-                        sh2.finish();
-                        if tmp.violations.is_empty() {
-                            "usable".to_string()
-                        } else {
-                            format!("accepted-unusable: probe batch failed: {}", tmp.violations.values().next().map(|v| format!("{}: {}", v.key, v.desc)).unwrap_or_default())
-                        }
+                        // accepted and not excluded by definition: it is exercised, whatever happens under it is
+                        // the wrapper's business (a probe that "fails" must surface as violations, never as a skip)
+                        drop(rs);
+                        "usable".to_string()
                     }
                 }
             };
@@ -157,7 +147,7 @@ pub fn run(args: &Args) -> Report {
     sweep_stale_dirs();
     let mut notes = Vec::new();
     let cal = calibrate(&mut notes);
-    let probed = probe_flags(&args.out, &cal);
+    let probed = probe_flags(&args.out);
     // A flag set is left out only when the probe batch fails under it AND passes on the default ring: a probe
     // that fails everywhere is the wrapper's (or the harness's) problem and must surface as violations, not as skips.
     let default_ok = probed.iter().any(|x| x.0 == 0 && x.1 == "usable");
